@@ -97,6 +97,8 @@ static int acquire(int th, int m, int kind) {
     long dl = (kind == A_TIMED_PAST) ? -1000 : (kind == A_TIMED_NEAR ? r + 3 : r + 1000000000L);
     if (dl < 0) { ts.tv_sec = CLOCK_BASE - 1; ts.tv_nsec = 0; }
     else { ts.tv_sec = CLOCK_BASE + dl / 1000; ts.tv_nsec = (dl % 1000) * 1000000L; }
+    if (kind == A_TIMED_FAR && (th + m) % 3 == 1) { ts.tv_sec = 0x7fffffffffffffffL; ts.tv_nsec = 999999999L; }   /* the "never" idioms */
+    if (kind == A_TIMED_FAR && (th + m) % 3 == 2) { ts.tv_sec = 20000000000L; ts.tv_nsec = 0; }
     logev(th, m, E_ACQ_ENTER, 2);
     int rc = myth_mutex_timedlock(&mtx[m], &ts);
     if (rc == 0) ok = 1;
